@@ -269,11 +269,16 @@ WOverflow(c) ==
         rx == RelaxApplied(c)
     IN \/ Overflow(c) /\ ~(PI(c.out) /\ kd = "Absolute" /\ WInterposable(k, c.out) /\ SiteWritable(c))
        \/ rx = "mov-to-imm" /\ k = "abs_4g"                      \* relaxed to R_X86_64_32
+       \* a 32-bit PC-relative field against 2^32 never fits, whatever the output kind
+       \/ kd = "Relative" /\ k = "abs_4g" /\ (c.ref \in {"pc32", "pc32d"} \/ rx = "mov-to-lea")
 
+(* order of detection: layout diagnostics; a missing reservation fails while the relocation is
+   written; then the range check of the value; an unused reservation only at validate_empty *)
 WOutcome(c) ==
     IF WProcess(c).err # "" THEN "diag:" \o WProcess(c).err
-    ELSE IF WProcess(c).part # WWrite(c) THEN "allocfail"
+    ELSE IF WProcess(c).part # WWrite(c) /\ WWrite(c) # "" THEN "allocfail"
     ELSE IF WOverflow(c) THEN "diag:overflow"
+    ELSE IF WProcess(c).part # WWrite(c) THEN "allocfail"
     ELSE "link"
 
 (* does the value wild leaves satisfy the formula at every load base? *)
@@ -308,7 +313,7 @@ Dev_PcrelConstPI(c) == /\ EffKind(c) \in {"Relative", "SymRelGotBase"} /\ RelaxA
                        /\ WAbsolute(c.sym) /\ PI(c.out) /\ WOutcome(c) = "link"
 Dev_GotpcrelAbsLea(c) == c.ref = "gotpcrel" /\ RelaxApplied(c) = "mov-to-lea" /\ WAbsolute(c.sym) /\ PI(c.out)
 Dev_RexGotpcrelxSign(c) == c.ref = "rex_gotpcrelx" /\ RelaxApplied(c) = "mov-to-imm" /\ c.sym = "abs_2g"
-Dev_RelaxImmOverflow(c) == RelaxApplied(c) = "mov-to-imm" /\ c.sym = "abs_4g"      \* valid GOT load rejected
+Dev_RelaxImmOverflow(c) == RelaxApplied(c) \in {"mov-to-imm", "mov-to-lea"} /\ c.sym = "abs_4g"   \* valid GOT load rejected
 Dev_DtpoffExe(c) == c.ref = "dtpoff64" /\ Exe(c.out) /\ ~Imported(c.sym)
 Dev_LocalTlsImported(c) == Reason(c) = "local-tls-imported" /\ WOutcome(c) = "link"
 Dev_LeTlsShared(c) == Reason(c) = "le-tls-in-shared" /\ WOutcome(c) = "link"
